@@ -107,6 +107,11 @@ def averageifs(average_range, *args):
         return coords
 
     data = _numerics((average_range[r][c] for r, c in coords), keep_bools=True)
+
+    # A returned string is an error code
+    if isinstance(data, str):
+        return data
+
     if len(data) == 0:
         return DIV0
     return sum(data) / len(data)
@@ -552,10 +557,13 @@ def maxifs(max_range, *args):
         if isinstance(coords, str):
             return coords
 
-        return max(_numerics(
-            (max_range[r][c] for r, c in coords),
-            keep_bools=True
-        ))
+        data = _numerics((max_range[r][c] for r, c in coords), keep_bools=True)
+
+        # A returned string is an error code
+        if isinstance(data, str):
+            return data
+
+        return max(data)
     except ValueError:
         return 0
 
@@ -594,10 +602,13 @@ def minifs(min_range, *args):
         if isinstance(coords, str):
             return coords
 
-        return min(_numerics(
-            (min_range[r][c] for r, c in coords),
-            keep_bools=True
-        ))
+        data = _numerics((min_range[r][c] for r, c in coords), keep_bools=True)
+
+        # A returned string is an error code
+        if isinstance(data, str):
+            return data
+
+        return min(data)
     except ValueError:
         return 0
 
